@@ -81,7 +81,7 @@ struct Fail {
     }
     bool sign(int got, int want, const char *form, const char *xn, const char *yn, const char *note = nullptr) {
         if (sgn(got) == want) return true;
-        if (why.empty()) why = std::string(form) + ctx(xn, yn, note) + ": sign " + verif::num(sgn(got)) + " (value " + verif::num(got) + "), reference order gives " + verif::num(want);
+        if (why.empty()) why = std::string(form) + ctx(xn, yn, note) + ": sign " + verif::num(sgn(got)) + " (value " + verif::num(got) + "), expected sign " + verif::num(want);
         return false;
     }
     bool truth(bool got, bool want, const char *form, const char *xn, const char *yn, const char *note = nullptr) {
